@@ -11,7 +11,7 @@ import random
 
 import numpy as np
 
-from vf import compiled as C, desc as D, drive, gen as G, monitors, oracle as O, refmodel as R, workloads as W
+from vf import compiled as C, compilecases as CC, desc as D, drive, gen as G, monitors, oracle as O, refmodel as R, workloads as W
 
 PROP = "C02"
 WATCHDOG_S = 3000
@@ -40,15 +40,31 @@ def compiled_conservation(M, rec, rng, n_nets):
         shp, desc, built = W.make_net(M, g, next(sh), rng)
         st = rng.choice(("SX", "MX"))
         pars = g.pars()
-        eng = CE(st)
+        # numeric parameters, or some link / ramp / model parameters symbolic and declared as function
+        # parameters (named '<attribute>_<element>' or by the bare attribute name), evaluated at other
+        # values than those of the description
+        keys = []
+        if rng.random() < 0.5:
+            cand = CC.candidate_params(desc, pars)
+            keys = rng.sample(cand, rng.randint(1, min(5, len(cand))))
         try:
-            built.net.step(engine=eng, **drive.step_pars(pars))
+            case = CC.CompileCase(M, rng, desc, pars, st, keys, own_symbols=(rng.random() < 0.5))
         except Exception:
             rec.count("compiled_step_exceptions")
             continue
+        pv = dict(case.pvalues)
+        for nm in pv:
+            if rng.random() < 0.6:
+                pv[nm] = pv[nm] * rng.choice((0.8, 0.9, 1.15))
+        pars_eff = dict(pars)
+        if ("#", "T") in case.param_name:
+            pars_eff["T"] = pv[case.param_name[("#", "T")]]
+        if keys:
+            rec.count("compiled_cases_with_symbolic_parameters")
+            rec.seen("compiled_parameter_names", tuple(sorted(case.parameters))[:3])
         for compact in (0, 1, 2):
             try:
-                F = eng.to_function(built.net, compact=compact, more_out=True, **drive.step_pars(pars))
+                F = case.compile(compact, True)
             except Exception:
                 rec.count("compile_exceptions")
                 continue
@@ -56,21 +72,21 @@ def compiled_conservation(M, rec, rng, n_nets):
             if R.is_singular(desc, vals):
                 rec.count("skipped_singular")
                 continue
-            order = C.live_order(built)
-            x, u, d = drive.flat_inputs(desc, vals, order)
+            order = case.order
             lay = D.var_layout(desc)
             try:
-                outs = C.call_positional(F, desc, order, vals, compact, more_out=True)
+                outs = case.call(F, vals, compact, True, pvalues=pv)
             except Exception as e:
                 rec.count("compiled_call_failed")
                 rec.seen("compiled_call_failed", repr(e)[:100])
                 continue
             xn, q, qo = outs
             rec.count("compiled_evaluations")
-            _balance_compiled(rec, desc, order, lay, vals, xn, q, qo, pars, st, compact)
+            _balance_compiled(rec, desc, order, lay, vals, xn, q, qo, pars_eff, st, compact,
+                              extra={"symbolic_parameters": {k_: pv[k_] for k_ in case.parameters}} if keys else None)
 
 
-def _balance_compiled(rec, desc, order, lay, vals, xn, q, qo, pars, st, compact):
+def _balance_compiled(rec, desc, order, lay, vals, xn, q, qo, pars, st, compact, extra=None):
     T = pars["T"]
     ins, outs, org, dst = R.topology(desc)
     bad = False
@@ -105,8 +121,8 @@ def _balance_compiled(rec, desc, order, lay, vals, xn, q, qo, pars, st, compact)
             rec.violation(
                 f"{PROP}:compiled(compact={min(compact, 2)}):node(n_in={c(len(ins[n]))},n_out={c(len(outs[n]))},"
                 f"origin={o['kind'] if o else 'none'}): reported flows and x+ do not balance",
-                {"engine": st, "compact": compact, "desc": desc, "vals": vals, "pars": pars, "node": n,
-                 "x_next": xn, "q": q, "q_o": qo, "lhs": lhs, "rhs": rhs},
+                dict({"engine": st, "compact": compact, "desc": desc, "vals": vals, "pars": pars, "node": n,
+                      "x_next": xn, "q": q, "q_o": qo, "lhs": lhs, "rhs": rhs}, **(extra or {})),
             )
     # queues: w+ = w + T (d - q_o)
     for o in desc["origins"]:
@@ -119,8 +135,8 @@ def _balance_compiled(rec, desc, order, lay, vals, xn, q, qo, pars, st, compact)
         if not O.close(exp, got, abs(w) + T * (abs(dmd) + abs(qo[o["id"]]))):
             rec.violation(
                 f"{PROP}:compiled(compact={min(compact, 2)}):origin({o['kind']}): w+ != w + T (d - reported q_o)",
-                {"engine": st, "compact": compact, "desc": desc, "vals": vals, "pars": pars,
-                 "origin": o["id"], "w_next": got, "expected": exp, "q_o": qo[o["id"]]},
+                dict({"engine": st, "compact": compact, "desc": desc, "vals": vals, "pars": pars,
+                      "origin": o["id"], "w_next": got, "expected": exp, "q_o": qo[o["id"]]}, **(extra or {})),
             )
 
 
@@ -175,13 +191,15 @@ def run(M, rec, tier, seed, k, n):
             W.numpy_steps(M, rec, rng, 500, draws=3, before_case=before)
             W.symbolic_steps(M, rec, rng, symvals, 40, points=2, before_case=before)
             compiled_conservation(M, rec, rng, 60)
-            W.closed_loop(M, rec, rng, 4, 150, on_step=on_step)
+            W.closed_loop(M, rec, rng, 6, 100, on_step=on_step)
+            W.inplace_pairs(M, rec, rng, 40, before_case=before)
             W.small_valid_steps(M, rec, rng, 2, before_case=before, seed=seed)
         else:
             W.numpy_steps(M, rec, rng, 6000, draws=3, before_case=before)
             W.symbolic_steps(M, rec, rng, symvals, 250, points=3, before_case=before)
             compiled_conservation(M, rec, rng, 500)
-            W.closed_loop(M, rec, rng, 6, 300, on_step=on_step)
+            W.closed_loop(M, rec, rng, 12, 200, on_step=on_step)
+            W.inplace_pairs(M, rec, rng, 300, before_case=before)
             W.small_valid_steps(M, rec, rng, 3, k, n, before_case=before, seed=seed)
             # every valid 4-node topology (49 551 digraphs) with the reduced role set (253 151 networks)
             W.small_valid_steps(M, rec, rng, 4, k, n, before_case=before, seed=seed + 1, kinds_full=False, only_n=4)
